@@ -223,8 +223,26 @@ def field_addr_pred(m, f, struct, field):
     return pred
 
 
-def count_once(m, f, rule, struct, field, site=None):
-    """every path of f performs exactly one store  field := field +/- 1  on a parameter-rooted object"""
+def _mutates_links(m, g, node, links, seen=None, depth=0):
+    """does g (or a private helper it calls) store into a link field of a node?"""
+    seen = seen if seen is not None else set()
+    if g is None or g.decl or g.name in seen or depth > 4:
+        return False
+    seen.add(g.name)
+    for i in g.all_insts():
+        if i.op == 'store' and resolve_addr(g, i.o[1]).fsteps[-1:] in tuple(((node, l),) for l in links):
+            return True
+        if i.op == 'call' and i.callee and not i.is_intrinsic():
+            h = g.module.fn(i.callee)
+            if h is not None and not h.decl and h.linkage == 'internal' and _mutates_links(m, h, node, links, seen, depth + 1):
+                return True
+    return False
+
+
+def count_once(m, f, rule, struct, field, site=None, node=None, links=()):
+    """every path of f performs exactly one store  field := field +/- 1  on a parameter-rooted object -- or, when the node
+    type and its link fields are given, exactly one on every path that changes a link (directly or through a private
+    link helper that keeps no count of its own) and none on a path that changes no link (pop_front of an empty list)"""
     bad = set()
     stored_vals = set()
     is_field = field_addr_pred(m, f, struct, field)
@@ -259,22 +277,43 @@ def count_once(m, f, rule, struct, field, site=None):
     if all(i.block.idx in {b.idx for s in i.block.succ for b in f.reachable_from(s)} for i in adjs):
         return False      # every adjustment sits in a loop: the function counts, it does not link/unlink one node
 
+    def is_link_change(ins):
+        if not node:
+            return False
+        if ins.op == 'store' and resolve_addr(f, ins.o[1]).fsteps[-1:] in tuple(((node, l),) for l in links):
+            return True
+        if ins.op == 'call' and ins.callee and not ins.is_intrinsic():
+            h = f.module.fn(ins.callee)
+            return h is not None and not h.decl and h.linkage == 'internal' and _mutates_links(m, h, node, links)
+        return False
+
     def transfer(ins, st, ps):
         if ins.op == 'call' and ins.x.get('noreturn'):
             return None
         d = is_adj(ins)
         if d:
-            return (min(st[0] + (d == 1), 3), min(st[1] + (d == -1), 3))
+            return (min(st[0] + (d == 1), 3), min(st[1] + (d == -1), 3), st[2])
+        if not st[2] and is_link_change(ins):
+            return (st[0], st[1], True)
         return st
 
     site = site or f.name
     loc = '%s:%d' % ((f.file or '').replace(m.repo + '/', ''), f.line)
     try:
-        res = typestate.run(f, (0, 0), transfer, track=lambda r: False, limit=100000)
+        res = typestate.run(f, (0, 0, False), transfer, track=lambda r: False, limit=100000)
     except typestate.Limit as e:
         rule.undecided(site, str(e), loc)
         return True
-    kinds = {ps.auto for _, ps in res.exits}
+    full = {ps.auto for _, ps in res.exits}
+    kinds = {(a_, b_) for (a_, b_, _m) in full}
+    if node and kinds - {(0, 0)} in ({(1, 0)}, {(0, 1)}) and (0, 0) in kinds:
+        # some path does not adjust: fine exactly when that path changes no link, and every adjusting path changes one
+        idle_ok = all(not mut for (a_, b_, mut) in full if (a_, b_) == (0, 0))
+        busy_ok = all(mut for (a_, b_, mut) in full if (a_, b_) != (0, 0))
+        if idle_ok and busy_ok:
+            rule.ok(site, '%s %s exactly once on every path that changes a link, untouched on the path(s) that change none (%d exit state(s))'
+                    % (field, '+1' if (1, 0) in kinds else '-1', len(res.exits)), loc)
+            return True
     if kinds == {(1, 0)} or kinds == {(0, 1)}:
         rule.ok(site, '%s %s exactly once on all %d exit state(s)' % (field, '+1' if kinds == {(1, 0)} else '-1', len(res.exits)), loc)
     else:
